@@ -1524,6 +1524,8 @@ def _dump_qcschema_molecule(f: TextIO, data: IOData) -> dict:
 
     """
     molecule_dict = {"schema_name": "qcschema_molecule", "schema_version": 2.0}
+    # Additional QCSchema molecule keys are optional.
+    molecule_extra = data.extra.get("molecule", {})
 
     # Gather required field data
     if data.atnums is None or data.atcoords is None:
@@ -1559,45 +1561,45 @@ def _dump_qcschema_molecule(f: TextIO, data: IOData) -> dict:
         molecule_dict["fix_symmetry"] = data.g_rot
 
     # Check for other QCSchema keys from IOData extra dict
-    if "qcel_validated" in data.extra["molecule"]:
-        molecule_dict["validated"] = data.extra["molecule"]["qcel_validated"]
-    if "identifiers" in data.extra["molecule"]:
-        molecule_dict["identifiers"] = data.extra["molecule"]["identifiers"]
-    if "comment" in data.extra["molecule"]:
-        molecule_dict["comment"] = data.extra["molecule"]["comment"]
-    if "atom_labels" in data.extra["molecule"]:
-        molecule_dict["atom_labels"] = data.extra["molecule"]["atom_labels"]
-    if "atomic_numbers" in data.extra["molecule"]:
-        molecule_dict["atomic_numbers"] = data.extra["molecule"]["atomic_numbers"].tolist()
-    if "masses" in data.extra["molecule"]:
-        molecule_dict["masses"] = data.extra["molecule"]["masses"].tolist()
-    if "mass_numbers" in data.extra["molecule"]:
-        molecule_dict["mass_numbers"] = data.extra["molecule"]["mass_numbers"].tolist()
-    if "fragments" in data.extra["molecule"]:
-        if "indices" in data.extra["molecule"]["fragments"]:
+    if "qcel_validated" in molecule_extra:
+        molecule_dict["validated"] = molecule_extra["qcel_validated"]
+    if "identifiers" in molecule_extra:
+        molecule_dict["identifiers"] = molecule_extra["identifiers"]
+    if "comment" in molecule_extra:
+        molecule_dict["comment"] = molecule_extra["comment"]
+    if "atom_labels" in molecule_extra:
+        molecule_dict["atom_labels"] = molecule_extra["atom_labels"]
+    if "atomic_numbers" in molecule_extra:
+        molecule_dict["atomic_numbers"] = molecule_extra["atomic_numbers"].tolist()
+    if "masses" in molecule_extra:
+        molecule_dict["masses"] = molecule_extra["masses"].tolist()
+    if "mass_numbers" in molecule_extra:
+        molecule_dict["mass_numbers"] = molecule_extra["mass_numbers"].tolist()
+    if "fragments" in molecule_extra:
+        if "indices" in molecule_extra["fragments"]:
             molecule_dict["fragments"] = [
-                fragment.tolist() for fragment in data.extra["molecule"]["fragments"]["indices"]
+                fragment.tolist() for fragment in molecule_extra["fragments"]["indices"]
             ]
-        if "indices" in data.extra["molecule"]["fragments"]:
-            molecule_dict["fragment_charges"] = data.extra["molecule"]["fragments"][
+        if "indices" in molecule_extra["fragments"]:
+            molecule_dict["fragment_charges"] = molecule_extra["fragments"][
                 "charges"
             ].tolist()
-        if "indices" in data.extra["molecule"]["fragments"]:
-            molecule_dict["fragment_multiplicities"] = data.extra["molecule"]["fragments"][
+        if "indices" in molecule_extra["fragments"]:
+            molecule_dict["fragment_multiplicities"] = molecule_extra["fragments"][
                 "multiplicities"
             ].tolist()
-    if "fix_com" in data.extra["molecule"]:
-        molecule_dict["fix_com"] = data.extra["molecule"]["fix_com"]
-    if "fix_orientation" in data.extra["molecule"]:
-        molecule_dict["fix_orientation"] = data.extra["molecule"]["fix_orientation"]
+    if "fix_com" in molecule_extra:
+        molecule_dict["fix_com"] = molecule_extra["fix_com"]
+    if "fix_orientation" in molecule_extra:
+        molecule_dict["fix_orientation"] = molecule_extra["fix_orientation"]
     molecule_dict["provenance"] = _dump_provenance(f, data, "molecule")
-    if "id" in data.extra["molecule"]:
-        molecule_dict["id"] = data.extra["molecule"]["id"]
-    if "extras" in data.extra["molecule"]:
-        molecule_dict["extras"] = data.extra["molecule"]["extras"]
-    if "unparsed" in data.extra["molecule"]:
-        for k in data.extra["molecule"]["unparsed"]:
-            molecule_dict[k] = data.extra["molecule"]["unparsed"][k]
+    if "id" in molecule_extra:
+        molecule_dict["id"] = molecule_extra["id"]
+    if "extras" in molecule_extra:
+        molecule_dict["extras"] = molecule_extra["extras"]
+    if "unparsed" in molecule_extra:
+        for k in molecule_extra["unparsed"]:
+            molecule_dict[k] = molecule_extra["unparsed"][k]
 
     return molecule_dict
 
@@ -1627,7 +1629,7 @@ def _dump_provenance(f: TextIO, data: IOData, source: str) -> Union[list[dict], 
         "version": __version__,
         "routine": "iodata.formats.json.dump_one",
     }
-    if "provenance" in data.extra[source]:
+    if "provenance" in data.extra.get(source, {}):
         provenance = data.extra[source]["provenance"]
         if isinstance(provenance, dict):
             return [provenance, new_provenance]
